@@ -262,6 +262,57 @@ def _hr_table(cu, symbols):
     return table
 
 
+def _arrarg(x, legacy_scalar=False):
+    """normalise an allclose operand: ('scalar', q) | ('arr', [q…]) | ('arr2', [[q…]…]); legacy: a bare quantity = scalar, a list = array"""
+    if x is None:
+        return None
+    if isinstance(x, list):
+        return ('scalar', x[0]) if legacy_scalar else ('arr', x)
+    for k in ('scalar', 'arr', 'arr2'):
+        if k in x:
+            return (k, x[k])
+    return ('scalar', x)
+
+
+def _nd_leaves(d):
+    return [d] if isinstance(d, dict) else [y for x in d for y in _nd_leaves(x)]
+
+
+def _nd_map(d, f):
+    return f(d) if isinstance(d, dict) else [_nd_map(x, f) for x in d]
+
+
+def _nd_real(d, like=None):
+    """a `quantities` array (any nesting) holding the described quantities, in the unit of its first leaf (`like`: unit for an empty array)"""
+    import numpy as np
+    lv = _nd_leaves(d)
+    q0 = lv[0] if lv else like
+    if 'num' in q0:
+        return np.array(_nd_map(d, lambda q: float(q['num'])), dtype=float)
+    f0 = _book(q0)[1]
+    return np.array(_nd_map(d, lambda q: float(_si(q) / f0)), dtype=float) * _real({'mag': 1.0, 'u': q0['u']})
+
+
+def _nd_si(d):
+    import numpy as np
+    a = np.empty(np.shape(_nd_map(d, lambda q: 0)), dtype=object)
+    flat = [_si(q) for q in _nd_leaves(d)]
+    a.ravel()[:] = flat if flat else []
+    return a
+
+
+def _real_arrarg(t, like=None):
+    kind, v = t
+    return _real(v) if kind == 'scalar' else _nd_real(v, like)
+
+
+def _model_arrarg(t, ncols_of=None):
+    kind, v = t
+    if kind == 'scalar':
+        return {'scalar': _mj(v)}
+    return {'arr': [_mj(q) for q in _nd_leaves(v)]}
+
+
 def _cval_real(v):
     if v is None:
         return None
@@ -561,7 +612,9 @@ class C09(Property):
         'dimensionless one; lemma toUnitless_iterable), correspondence only, no oracle claim',
         'from_human_readable of hand-edited entries whose symbol carries an exponent (m**2, 1/s): the exponent is dropped (mirrored, correspondence only); accept/refuse has a theorem',
         'Backend: a non-callable attribute (be.pi) is handed through unchanged — oracle only (no unit logic to model)',
-        'allclose with atol when a plain number is involved, allclose on lists/arrays (mirrored by the model, correspondence + oracle), UncertainQuantity arguments',
+        'allclose with atol when a plain number is involved; allclose on Python lists (mirrored, correspondence + oracle); allclose on 2-d arrays is reduced to 1-d by the harness '
+        '(the model and helpers_allclose_arrays are 1-d with broadcasting); an array atol larger than `a` (ValueError of the in-place `lim += atol`, reported) is accepted either way',
+        'n-d shapes of linspace/logspace_from_lin/tile/concatenate/uniform/polyval/polyfit (array end points, reps tuples, axis=, 2-d x or y): oracle only (`shape_helper`), the model of these helpers is 1-d',
         'polyval with a list/array x (element-wise use of the scalar theorem; correspondence + oracle); polyfit: scaling covariance of np.polyfit itself is a hypothesis of '
         'helpers_polyfit_unit_independent (oracle compares with the fit of the SI magnitudes)',
         'logspace_from_lin: theorem over the reals for positive end points; the Float instantiation is compared to 1e-9',
@@ -588,7 +641,7 @@ class C09(Property):
             cases.append({'op': 'get_derived_unit', 'reg': [{'mag': 1.0, 'u': [[BY_DIM[i][0], 1]]} for i in range(7)], 'key': key})
             cases.append({'op': 'get_derived_unit', 'reg': _registry(rng), 'key': key})
         cases.append({'op': 'get_derived_unit', 'reg': None, 'key': 'energy'})
-        gens = [(0.30, self._g_scalar), (0.10, self._g_container), (0.07, self._g_small), (0.02, self._g_ndarray), (0.05, self._g_objarray), (0.03, self._g_round7), (0.02, self._g_allclose_arr), (0.12, self._g_registry),
+        gens = [(0.30, self._g_scalar), (0.10, self._g_container), (0.07, self._g_small), (0.02, self._g_ndarray), (0.05, self._g_objarray), (0.03, self._g_round7), (0.045, self._g_allclose_arr), (0.12, self._g_registry),
                 (0.05, self._g_derived), (0.05, self._g_human), (0.04, self._g_compare), (0.06, self._g_allclose),
                 (0.05, self._g_linspace), (0.03, self._g_logspace), (0.03, self._g_concat), (0.02, self._g_tile),
                 (0.03, self._g_polyval), (0.02, self._g_polyfit), (0.03, self._g_backend)]
@@ -763,19 +816,113 @@ class C09(Property):
             c = {'op': 'allclose_u', 'a': a0, 'b': b, 'rtol': rtol, 'atol': None, 'a_unc': None, 'b_unc': None}
             c[rng.choice(['a_unc', 'b_unc'])] = rng.choice([0.1, 1e-6, 5.0])
             return c
-        k = rng.randint(1, 3)
-        a_scalar = rng.random() < 0.35
-        la = [a0] if a_scalar else [a0] + [_compat_q(rng, a0) for _ in range(k - 1)]
-        base = [a0] * k if a_scalar else la
-        lb = [near(x, rng.choice([1e-3, 1e-3, 1e3]) * rtol) if _si(x) != 0 else x for x in base]
-        if rng.random() < 0.1:
-            lb = [dict(y, u=y['u'] + [['s', 1]]) for y in lb]           # another dimension: False, no exception
+        if rng.random() < 0.35:
+            return self._g_shape_helper(rng, a0)
+        # SHAPES: scalar / length-1 / length-n / 2-d on either side, atol none / scalar / array (of the length of a, of length 1, longer than a)
+        n = rng.randint(2, 3)
+        far = rng.random() < 0.4
+        rel = lambda: (rng.choice([1e3, -1e3]) if far and rng.random() < 0.5 else 1e-3) * rtol
+
+        def arr(kind, base):
+            """an operand of the given kind, close to `base` (a list of n quantities) element by element"""
+            if kind == 'scalar':
+                return {'scalar': near(base[0], rel())}
+            if kind == 'len1':
+                return {'arr': [near(base[0], rel())]}
+            if kind == 'arr2':
+                return {'arr2': [[near(x, rel()) for x in base] for _ in range(2)]}
+            return {'arr': [near(x, rel()) for x in base]}
+        same = rng.random() < 0.5                       # all elements physically equal (so that broadcasting can give True)
+        base = [a0] * n if same else [a0] + [_compat_q(rng, a0) for _ in range(n - 1)]
+        base = [x if _si(x) != 0 else a0 for x in base]
+        ka = rng.choice(['scalar', 'len1', 'arr', 'arr', 'arr2'])
+        kb = rng.choice(['scalar', 'len1', 'arr', 'arr', 'arr2'])
+        both_scalar = ka == 'scalar' and kb == 'scalar'
+        a, b = arr(ka, base), arr(kb, base)
+        if not far:
+            a = {k: _nd_map(v, lambda q: dict(q)) for k, v in a.items()}
+        r = rng.random()
+        if r < 0.08 and 'arr' in b and len(b['arr']) > 1:
+            b = {'arr': b['arr'] + [b['arr'][0]]}                                   # lengths n and n+1: not broadcastable -> False
+        elif r < 0.16:
+            b = {k: _nd_map(v, lambda q: dict(q, u=q['u'] + [['s', 1]])) for k, v in b.items()}      # another dimension: False, no exception
         atol = None
-        if rng.random() < 0.3:
-            t = _compat_q(rng, a0)
-            t['mag'] = float(abs(_si(a0)) * F(rtol) * rng.choice([1000, F(1, 1000)]) / _book(t)[1])
-            atol = t if rng.random() < 0.75 else _q(rng)
-        return {'op': 'allclose_arrays', 'a_scalar': a_scalar, 'a': la, 'b': lb, 'rtol': rtol, 'atol': atol}
+        r = rng.random()
+        if r < 0.4:
+            def tq(scale=None):
+                t = _compat_q(rng, a0)
+                t['mag'] = float(abs(_si(a0)) * F(rtol) * (scale or rng.choice([1000, F(1, 1000)])) / _book(t)[1])
+                return t
+            kt = rng.choice(['scalar', 'scalar', 'len_a', 'len1', 'longer', 'baddim'])
+            if both_scalar:
+                kt = rng.choice(['len1', 'longer', 'longer'])          # two scalars are only interesting here with an array atol
+            la = 1 if ka in ('scalar', 'len1') else n
+            if kt == 'scalar':
+                atol = {'scalar': tq()}
+            elif kt == 'len_a' and ka not in ('scalar', 'arr2'):
+                atol = {'arr': [tq() for _ in range(la)]}
+            elif kt == 'len1':
+                atol = {'arr': [tq()]}
+            elif kt == 'longer':
+                atol = {'arr': [tq() for _ in range(n if la == 1 else n + 1)]}
+            elif kt == 'baddim':
+                atol = {'scalar': _q(rng)}
+        if both_scalar and (atol is None or 'arr' not in atol):
+            atol = {'arr': [dict(a['scalar'], mag=float(abs(_si(a0)) * F(rtol) * k_ / _book(a['scalar'])[1])) for k_ in (1000, F(1, 1000))][:rng.randint(1, 2)]}
+        return {'op': 'allclose_arrays', 'a': a, 'b': b, 'rtol': rtol, 'atol': atol}
+
+    def _g_shape_helper(self, rng, q):
+        """length-1, empty and 2-d arguments of linspace / logspace_from_lin / tile / concatenate / uniform / polyval / polyfit (oracle: plain NumPy routine)"""
+        mk = lambda: _compat_q(rng, q)
+        pos = lambda x: dict(x, mag=abs(x['mag']) or 1.0)
+        row = lambda k: [mk() for _ in range(k)]
+        fn = rng.choice(['linspace', 'logspace_from_lin', 'tile', 'tile', 'concatenate', 'concatenate', 'uniform', 'polyval', 'polyfit'])
+        c = {'op': 'shape_helper', 'fn': fn, 'like': q}
+        k = rng.choice([1, 1, 2, 3])
+        if fn in ('linspace', 'logspace_from_lin'):
+            f = pos if fn == 'logspace_from_lin' else (lambda x: x)
+            shape = rng.choice(['arr-arr', 'scalar-arr', 'arr-scalar', 'len1-arr'])
+            st = f(mk()) if shape == 'scalar-arr' else [f(mk()) for _ in range(1 if shape == 'len1-arr' else k)]
+            sp = f(mk()) if shape == 'arr-scalar' else [f(mk()) for _ in range(k)]
+            c.update(start=st, stop=sp, num=rng.choice([1, 2, 3]))
+            c['like'] = pos(q) if fn == 'logspace_from_lin' else q
+        elif fn == 'tile':
+            shape = rng.choice(['len1', '2d', '2d-list', 'reps-tuple', 'empty'])
+            arr = row(1) if shape == 'len1' else [] if shape == 'empty' else row(k) if shape == 'reps-tuple' else [row(k) for _ in range(2)]
+            c.update(array=arr, reps=[2, rng.choice([1, 2])] if shape == 'reps-tuple' else rng.choice([1, 2, 3]), as_array=shape != '2d-list')
+        elif fn == 'concatenate':
+            shape = rng.choice(['len1', 'empty-second', 'empty-first', '2d', '2d-axis1'])
+            if shape in ('2d', '2d-axis1'):
+                c.update(arrays=[[row(k) for _ in range(rng.randint(1, 2))] for _ in range(2)], axis=1 if shape == '2d-axis1' else None)
+                if shape == '2d-axis1':
+                    c['arrays'] = [[row(k)], [row(rng.randint(1, 2))]]
+            else:
+                c['arrays'] = [row(1), row(rng.randint(1, 2))] if shape == 'len1' else [row(k), []] if shape == 'empty-second' else [[], row(k)]
+                c['axis'] = None
+        elif fn == 'uniform':
+            shape = rng.choice(['len1', '2d-list', 'array', 'tuple-as-list'])
+            c.update(v=row(1) if shape == 'len1' else [row(k) for _ in range(2)] if shape == '2d-list' else row(k), as_array=shape == 'array')
+        elif fn == 'polyval':
+            ux = [[rng.choice(BY_DIM[T]), 1]]
+            dx, dy = _book_u(ux)[1], _book(q)[2]
+            deg = rng.randint(0, 2)
+            p = [{'mag': float(rng.randint(1, 9)), 'u': _units_for_dims(rng, _dadd(dy, dx, -(deg - i)), own_p=0)} for i in range(deg + 1)]
+            xq = lambda: {'mag': float(rng.randint(-4, 4)), 'u': [[rng.choice(BY_DIM[T]), 1]]}
+            shape = rng.choice(['len1', 'empty', '2d', 'arr'])
+            x = [xq()] if shape == 'len1' else [] if shape == 'empty' else [[xq() for _ in range(k)] for _ in range(2)] if shape == '2d' else [xq() for _ in range(k)]
+            c.update(p=p, x=x, like_x={'mag': 1.0, 'u': ux})
+        else:
+            ux = [[rng.choice(BY_DIM[T]), 1]]
+            shape = rng.choice(['len1-deg0', 'two-deg1', '2d-y', 'empty'])
+            npts = {'len1-deg0': 1, 'two-deg1': 2, '2d-y': 4, 'empty': 0}[shape]
+            deg = {'len1-deg0': 0, 'two-deg1': 1, '2d-y': rng.choice([1, 2]), 'empty': 0}[shape]
+            xs = rng.sample(range(-5, 6), npts)
+            x = [{'mag': float(v), 'u': [[rng.choice(BY_DIM[T]), 1]]} for v in xs]
+            x = [dict(e, mag=float(F(e['mag']) * _book_u(ux)[0] / _book(e)[1])) for e in x]
+            yq = lambda v: (lambda t: dict(t, mag=float(F(v) / _book(t)[1] * _book(q)[1])))(mk())
+            y = [[yq(rng.randint(-9, 9)) for _ in range(2)] for _ in xs] if shape == '2d-y' else [yq(rng.randint(-9, 9)) for _ in xs]
+            c.update(x=x, y=y, deg=deg, like_x={'mag': 1.0, 'u': ux})
+        return c
 
     def _g_objarray(self, rng, tier):
         """container TYPE x target: object-dtype arrays (1-D, 2-D, 0-d) of quantities / mixed quantities and plain numbers, and lists/tuples
@@ -1081,8 +1228,20 @@ class C09(Property):
             m['entries'] = None if c['entries'] is None else [[rat_json(F(f)), s_] for f, s_ in c['entries']]
             m['table'] = [[k, v] for k, v in _hr_table(_chempy(), [] if c['entries'] is None else [s_ for _, s_ in c['entries']]).items()]
         elif op == 'allclose_arrays':
-            m.update(a_scalar=bool(c['a_scalar']), a=[_mj(x) for x in c['a']], b=[_mj(x) for x in c['b']], rtol=rat_json(F(c['rtol'])),
-                     atol=None if c['atol'] is None else _mj(c['atol']))
+            a, b, t = _arrarg(c['a'], c.get('a_scalar', False)), _arrarg(c['b']), _arrarg(c['atol'])
+            # the model is 1-d: two 2-d operands of one shape are flattened; a row against a 2-d operand is tiled first (NumPy broadcasting done here)
+            def flat2(x, other):
+                if x[0] == 'arr' and other is not None and other[0] == 'arr2' and len(x[1]) == len(other[1][0]) and len(x[1]) > 1:
+                    return ('arr', [q for _ in other[1] for q in x[1]])
+                if x[0] == 'arr2':
+                    return ('arr', [q for row in x[1] for q in row])
+                return x
+            a2, b2 = flat2(a, b), flat2(b, a)
+            # atol is broadcast over the shape of a - b: against a 2-d operand an atol row is tiled like any other row
+            t2 = None if t is None else flat2(t, a if a[0] == 'arr2' else (b if b[0] == 'arr2' else None))
+            m.update(a=_model_arrarg(a2), b=_model_arrarg(b2), rtol=rat_json(F(c['rtol'])), atol=None if t2 is None else _model_arrarg(t2))
+        elif op == 'shape_helper':
+            return None                     # n-d shapes of the other helpers: oracle-only (the model of these helpers is 1-d)
         elif op == 'allclose_u':
             m.update(a=_mj(c['a']), b=_mj(c['b']), rtol=rat_json(F(c['rtol'])), atol=None)
             for k in ('a', 'b'):
@@ -1206,8 +1365,7 @@ class C09(Property):
                     out.append({'n': _jf(x)})
             return J_(out)
         if op == 'allclose_arrays':
-            a = self._qarray(c['a'])[0] if c['a_scalar'] else self._qarray(c['a'])
-            return str(bool(cu.allclose(a, self._qarray(c['b']), rtol=c['rtol'], atol=None if c['atol'] is None else _real(c['atol']))))
+            return str(bool(self._call_allclose_arrays(cu, c)))
         if op == 'allclose_u':
             return str(bool(cu.allclose(self._unc(cu, c, 'a'), self._unc(cu, c, 'b'), rtol=c['rtol'])))
         if op == 'compare_equality_c':
@@ -1281,6 +1439,12 @@ class C09(Property):
             v = getattr(cu, c['name'])
             return '[' + ','.join(str(int(v.get(k, 0))) for k in KEYS) + ']'
         return '!unknown-op'
+
+    def _call_allclose_arrays(self, cu, c):
+        a, b, t = _arrarg(c['a'], c.get('a_scalar', False)), _arrarg(c['b']), _arrarg(c['atol'])
+        like = (_nd_leaves(a[1]) + _nd_leaves(b[1]) + [None])[0] if a[0] != 'scalar' else a[1]
+        return cu.allclose(_real_arrarg(a, c.get('like_a', like)), _real_arrarg(b, c.get('like_b', like)), rtol=c['rtol'],
+                           atol=None if t is None else _real_arrarg(t, like))
 
     def _qarray(self, qs):
         """a `quantities` ARRAY (one unit, the first element's) holding the given quantities"""
@@ -1592,16 +1756,56 @@ class C09(Property):
             want = _si(a) == _si(b)
             return None if got == want else 'compare_equality = %r, physical equality = %r' % (got, want)
 
-        if op in ('allclose', 'allclose_list', 'allclose_arrays', 'allclose_u'):
-            la = c['a'] if op in ('allclose_list', 'allclose_arrays') else [c['a']]
-            lb = c['b'] if op in ('allclose_list', 'allclose_arrays') else [c['b']]
+        if op == 'allclose_arrays':
+            # the plain routine (chempy's definition: rtol scales |a|) element-wise over the BROADCAST shape, on the SI values
+            a, b, t = _arrarg(c['a'], c.get('a_scalar', False)), _arrarg(c['b']), _arrarg(c['atol'])
+            call = lambda: self._call_allclose_arrays(cu, c)
+            sv = lambda x: (np.array(_si(x[1]), dtype=object) if x[0] == 'scalar' else _nd_si(x[1]))
+            lvs = lambda x: [x[1]] if x[0] == 'scalar' else _nd_leaves(x[1])
+            A, B = sv(a), sv(b)
+            da = {_book(q)[2] for q in lvs(a)} | {_book(q)[2] for q in lvs(b)}
+            try:
+                A2, B2 = np.broadcast_arrays(A, B)
+            except ValueError:
+                got = call()
+                return None if bool(got) is False else 'allclose of shapes %r and %r that cannot be broadcast is not False' % (A.shape, B.shape)
+            if A2.size == 0:
+                return None
+            if len(da) > 1:
+                got = call()
+                return None if bool(got) is False else 'allclose of quantities of different dimension is not False'
+            if t is not None:
+                if {_book(q)[2] for q in lvs(t)} != da:
+                    return self._raises(call)
+                TT = sv(t)
+                try:
+                    T2, A2, B2 = np.broadcast_arrays(TT, A2, B2)      # ONE common shape of a, b and atol (fixes e80401e, dadaf52)
+                except ValueError:
+                    return self._raises(call)
+            else:
+                T2 = np.zeros(A2.shape, dtype=object)
+            want = True
+            for x, y, tt in zip(A2.ravel(), B2.ravel(), T2.ravel()):
+                lim = abs(x) * F(c['rtol']) + tt
+                dd = abs(x - y)
+                if lim and F(999, 1000) < dd / lim < F(1001, 1000):
+                    return None
+                if dd > lim:
+                    want = False
+            try:
+                got = bool(call())
+            except ValueError:
+                return 'allclose raised ValueError for broadcastable operands'
+            return None if got == want else 'allclose = %r, plain test over the broadcast shape %r on the magnitudes in one unit = %r' % (got, A2.shape, want)
+
+        if op == 'shape_helper':
+            return self._shape_oracle(cu, c)
+
+        if op in ('allclose', 'allclose_list', 'allclose_u'):
+            la = c['a'] if op == 'allclose_list' else [c['a']]
+            lb = c['b'] if op == 'allclose_list' else [c['b']]
             atol = c.get('atol')
-            if op == 'allclose_arrays':
-                if c['a_scalar']:
-                    la = [la[0]] * len(lb)
-                ra = self._qarray(c['a'])[0] if c['a_scalar'] else self._qarray(c['a'])
-                rb = self._qarray(c['b'])
-            elif op == 'allclose_u':
+            if op == 'allclose_u':
                 ra, rb = self._unc(cu, c, 'a'), self._unc(cu, c, 'b')
             else:
                 ra, rb = ([_real(x) for x in la], [_real(x) for x in lb]) if op == 'allclose_list' else (_real(la[0]), _real(lb[0]))
@@ -1746,6 +1950,69 @@ class C09(Property):
                     return 'SI_base_registry[%s] is not the SI base unit' % k
             return None
         return None
+
+    def _shape_oracle(self, cu, c):
+        """length-1 / empty / 2-d arguments of the array helpers: result == the plain NumPy routine on the magnitudes in ONE common unit, times that unit"""
+        import numpy as np
+        fn = c['fn']
+        fl = lambda d: np.array(_nd_map(d, lambda q: float(_si(q))), dtype=float)        # SI magnitudes
+        def si_res(r):
+            f, _ = _book_of_real_unit(r)
+            return np.asarray(r.magnitude, dtype=float) * float(f)
+        def cmp(r, want, what, dims):
+            got = si_res(r)
+            if _book_of_real_unit(r)[1] != dims:
+                return '%s: result dimension %r, expected %r' % (what, _book_of_real_unit(r)[1], dims)
+            if got.shape != np.shape(want):
+                return '%s: result shape %r, plain routine %r' % (what, got.shape, np.shape(want))
+            sc = float(np.max(np.abs(want))) if np.size(want) else 0.0
+            if not np.all(np.abs(got - want) <= 1e-9 * np.abs(want) + 1e-11 * sc):
+                return '%s = %r (SI), plain routine on the magnitudes in one unit = %r' % (what, got.tolist(), np.asarray(want).tolist())
+            return None
+        like = c.get('like')
+        dims = _book(like)[2]
+        if fn in ('linspace', 'logspace_from_lin'):
+            a, b, n = c['start'], c['stop'], c['num']
+            r = getattr(cu, fn)(_nd_real(a, like) if not isinstance(a, dict) else _real(a), _nd_real(b, like) if not isinstance(b, dict) else _real(b), n)
+            A, B = fl(a), fl(b)
+            want = np.linspace(A, B, n) if fn == 'linspace' else np.exp2(np.linspace(np.log2(A), np.log2(B), n))
+            return cmp(r, want, fn, dims)
+        if fn == 'tile':
+            arr, reps = c['array'], c['reps']
+            reps = tuple(reps) if isinstance(reps, list) else reps
+            call = lambda: cu.tile(_nd_real(arr, like) if c.get('as_array', True) else _nd_map(arr, _real), reps)
+            if not _nd_leaves(arr):
+                return self._raises(call, (IndexError,))       # noted: NumPy tiles an empty array, chempy cannot find its unit
+            return cmp(call(), np.tile(fl(arr), reps), 'tile', dims)
+        if fn == 'concatenate':
+            arrays, kw = c['arrays'], ({'axis': c['axis']} if c.get('axis') is not None else {})
+            call = lambda: cu.concatenate([_nd_real(a, like) for a in arrays], **kw)
+            return cmp(call(), np.concatenate([fl(a) for a in arrays], **kw), 'concatenate', dims)
+        if fn == 'uniform':
+            v = c['v']
+            r = cu.uniform(_nd_map(v, _real) if not c.get('as_array') else _nd_real(v, like))
+            return cmp(r, fl(v), 'uniform', dims)
+        if fn == 'polyval':
+            p, x = c['p'], c['x']
+            r = cu.polyval([_real(q) for q in p], _nd_real(x, c['like_x']))
+            return cmp(r, np.polyval([float(_si(q)) for q in p], fl(x)), 'polyval', _book(p[-1])[2])
+        if fn == 'polyfit':
+            x, y, deg = c['x'], c['y'], c['deg']
+            call = lambda: cu.polyfit(_nd_real(x, c['like_x']), _nd_real(y, like), deg)
+            if not _nd_leaves(x):
+                return self._raises(call, (IndexError, TypeError, ValueError))
+            r = call()
+            want = np.polyfit(fl(x), fl(y), deg)
+            dx = _book(c['like_x'])[2]
+            xm, ym = float(np.max(np.abs(fl(x)))) or 1.0, float(np.max(np.abs(fl(y)))) or 1.0
+            for i, (coef, w) in enumerate(zip(r, want)):
+                if _book_of_real_unit(1 * coef)[1] != _dadd(dims, dx, -(deg - i)):
+                    return 'polyfit coefficient %d has dimension %r' % (i, _book_of_real_unit(1 * coef)[1])
+                g = si_res(1 * coef)
+                if g.shape != np.shape(w) or not np.all(np.abs(g - w) <= 1e-6 * np.abs(w) + 1e-7 * ym / xm ** (deg - i)):
+                    return 'polyfit coefficient %d = %r (SI), fit of the SI magnitudes %r' % (i, g.tolist(), np.asarray(w).tolist())
+            return None
+        return 'unknown shape_helper'
 
     def _flat(self, r):
         import numpy as np
